@@ -5,6 +5,7 @@ import (
 	"encoding/json"
 	"errors"
 	"fmt"
+	"os"
 	"runtime/debug"
 	"sort"
 	"strings"
@@ -369,6 +370,9 @@ func execScenario(sc scenario, labels map[string]bool, nontrivial *bool, include
 		}
 	}
 	checkRunning := func(at string) string {
+		if os.Getenv("C20_SKIP_LIST_CHECK") != "" {
+			return "" // development knob: shows that the stamp oracle alone catches a mutant (see MUTANTS.md)
+		}
 		got := d.GetRunningBackgroundWorkers()
 		want := map[string]int{}
 		for _, w := range running {
